@@ -19,6 +19,47 @@ def once(c, a, rec):
     c.sendall(b'BYE!!')
     c.close()
 bye = Origin(once)
+class SlowSink:
+    """origin with a small receive buffer that starts reading late and reads in small pieces (back-pressure on the
+    proxy's upstream leg), then answers b'DONE' and closes"""
+    def __init__(self):
+        self.sock = socket.socket(socket.AF_INET, socket.SOCK_STREAM)
+        self.sock.setsockopt(socket.SOL_SOCKET, socket.SO_REUSEADDR, 1)
+        self.sock.setsockopt(socket.SOL_SOCKET, socket.SO_RCVBUF, 8192)
+        self.sock.bind(('127.0.0.1', 0))
+        self.sock.listen(16)
+        self.port = self.sock.getsockname()[1]
+        self.got = {}
+        threading.Thread(target=self._accept, daemon=True).start()
+    def _accept(self):
+        while True:
+            try:
+                c, a = self.sock.accept()
+            except OSError:
+                return
+            threading.Thread(target=self._serve, args=(c, a), daemon=True).start()
+    def _serve(self, c, a):
+        n = 0
+        try:
+            time.sleep(0.5)
+            c.settimeout(20)
+            while True:
+                d = c.recv(3000)
+                if not d:
+                    break
+                n += len(d)
+            c.sendall(b'DONE')
+        except OSError:
+            pass
+        self.got[a[1]] = n
+        c.close()
+    def stop(self):
+        try:
+            self.sock.shutdown(socket.SHUT_RDWR)
+        except OSError:
+            pass
+        self.sock.close()
+sink = SlowSink()
 CLOSED = free_port()
 DEADP = free_port()
 TLSS = {'cert': f'{CERTS}/server.crt', 'key': f'{CERTS}/server.key'}
@@ -129,6 +170,23 @@ class Conn:
             if len(got) != len(msg):
                 self.note = 'echo incomplete'
             self.terminal = 'ErrorOccured' if k == 'abort' else 'Terminated'
+            return True
+        if k == 'slow-bulk':
+            ok = self._request('127.0.0.1', sink.port)
+            if not ok:
+                self.note = 'tunnel not established'
+                self.terminal = '?'
+                return False
+            self.connector = 'direct'
+            n = 6 << 20
+            self.sock.settimeout(30)
+            self.sock.sendall(pattern(n, 7))
+            self.sock.shutdown(socket.SHUT_WR)
+            got = self.rest + recv_until_eof(self.sock, 30)[0]
+            self.up, self.down = n, len(got)
+            if got != b'DONE':
+                self.note = f'answer {got[:20]!r}'
+            self.terminal = 'Terminated'
             return True
         if k == 'origin-closes':
             ok = self._request('127.0.0.1', bye.port)
@@ -483,6 +541,12 @@ def run_config(hsize, splice):
         ended += burst
         segments.append(burst)
         checkpoint(px, cfgname, hsize, ended, segments, judged)
+    # (4) back-pressure: 6 MiB pushed at an origin that reads late and slowly (short writes on the upstream leg)
+    for l in ('http', 'socks5'):
+        c = one(l, 'slow-bulk')
+        if c.note:
+            chk.violation('accounting.record', f'slow-bulk-transfer-failed:{l}', f'{cfgname}: {c.note}', {'config': cfgname})
+    checkpoint(px, cfgname, hsize, ended, segments, judged)
     if not px.alive():
         chk.violation('process', 'proxy-died', f'{cfgname}: exit {px.returncode()}: {px.log()[-300:]}', {})
     samples.append({'config': cfgname, 'connections': len(ended)})
@@ -495,11 +559,11 @@ for cfgc, r in zip(configs, results):
     if not isinstance(r, int):
         machinery(f'{cfgc}: {r}')
 hopb.stop()
-for o in (echo, echo2, bye):
+for o in (echo, echo2, bye, sink):
     o.stop()
 if evals < 300 or len(distinct) < 30:
     machinery(f'vacuous: evals={evals} distinct={len(distinct)}')
 cov = {'evaluations': evals, 'distinct_nontrivial': len(distinct), 'transitions': evals, 'traces_validated_against_impl': evals, 'connections': sum(r for r in results),
-       'rule': f'per configuration (historySize, useSplice) in {configs}: one long history on the real binary: (1) ordered pairs over the alphabet {KINDS} x [http, https, socks5, socks4, reverse] (quick: every operation after every fifth one; thorough: all pairs), strictly sequential; (2) trios held open together and closed in all 6 orders with /live compared at each step; (3) two bursts of concurrent mixed connections with the access log renamed and reopened (POST /logrotate, SIGUSR1) three times in the middle. Checkpoints compare /live, /history (length, newest-first by known end order, distinct ids) and the access log files (exactly one line per connection, truthful listener/source/target/connector, lifecycle grammar with one terminal state, byte counters) with what clients and origins did',
+       'rule': f'per configuration (historySize, useSplice) in {configs}: one long history on the real binary: (1) ordered pairs over the alphabet {KINDS} x [http, https, socks5, socks4, reverse] (quick: every operation after every fifth one; thorough: all pairs), strictly sequential; (2) trios held open together and closed in all 6 orders with /live compared at each step; (4) 6 MiB pushed at an origin with an 8 KiB receive buffer that reads late and in 3000-byte pieces (byte counters under back-pressure, both I/O modes); (3) two bursts of concurrent mixed connections with the access log renamed and reopened (POST /logrotate, SIGUSR1) three times in the middle. Checkpoints compare /live, /history (length, newest-first by known end order, distinct ids) and the access log files (exactly one line per connection, truthful listener/source/target/connector, lifecycle grammar with one terminal state, byte counters) with what clients and origins did',
        'schedule_control': 'kernel', 'samples': samples}
 sys.exit(chk.finish('model_checking', cov, ['E4 part: real loopback sockets, kernel scheduling uncontrolled; buffered log lines are flushed by a reopen before the log is read; connections are matched to records by listener + client address; UDP sessions and QUIC/TPROXY listeners are not part of this history']))
